@@ -1,5 +1,5 @@
 (* C15/Driver.v — entry points of the correspondence run (extracted to OCaml). *)
-From RM Require Import C15.Model C15.Schema C15.Widths C15.Utf8 C15.Pretty C15.Scalar C15.Regs C15.Consistent C15.Offsets C15.KeyOrder C15.Float.
+From RM Require Import C15.Model C15.Schema C15.Widths C15.Utf8 C15.Pretty C15.Scalar C15.Regs C15.Consistent C15.Offsets C15.KeyOrder C15.Float C15.FnOffsets.
 From RM Require C19.Model.
 Open Scope Z_scope.
 
@@ -63,6 +63,9 @@ Definition real_consistent (doc : list Z) : bool :=
 Definition real_offsets (doc : list Z) : bool :=
   match parse doc with Some j => offsets_ok j | None => false end.
 Definition mods_ok (s : state) : bool := frames_in_modules s.
+(* c15_function_offsets' conclusion evaluated on the REAL output against the function bases of the real state *)
+Definition real_fn_offsets (s : state) (doc : list Z) : bool :=
+  match parse doc with Some j => fn_offsets_ok s j | None => false end.
 (* c15_keys_sorted: its hypothesis on the real state, its conclusion on the REAL output *)
 Definition keys_ok (s : state) : bool := keys_hyp s.
 Definition real_sorted (doc : list Z) : bool :=
